@@ -422,8 +422,9 @@ class ToyServerCtx(toyctx.FakeSpnegoCtx):
 class RecordingCtx:
     """Proxy around a real pyspnego client context recording step() traffic (harness side only)."""
 
-    def __init__(self, inner):
+    def __init__(self, inner, nested=None):
         self._inner = inner
+        self._nested = nested if nested is not None else [0]
         self.step_args: t.List[t.Optional[bytes]] = []
         self.step_outs: t.List[bytes] = []
         self.wrap_calls: t.List[list] = []
@@ -432,9 +433,13 @@ class RecordingCtx:
     def complete(self):
         return self._inner.complete
 
-    def step(self, in_token=None):
+    def step(self, in_token=None, **kw):
         self.step_args.append(None if in_token is None else bytes(in_token))
-        out = self._inner.step(in_token)
+        self._nested[0] += 1
+        try:
+            out = self._inner.step(in_token, **kw)
+        finally:
+            self._nested[0] -= 1
         self.step_outs.append(bytes(out or b""))
         return out
 
@@ -447,6 +452,40 @@ class RecordingCtx:
 
     def __getattr__(self, name):
         return getattr(self._inner, name)
+
+
+_SHAPES: t.Dict[str, tuple] = {}
+
+
+def real_handshake_shape(protocol: str) -> tuple:
+    """How many tokens the real mechanism exchanges (client side: token empty?, complete afterwards; server side: token present?),
+    learnt by letting a pyspnego initiator and acceptor talk to each other directly (no RPC involved)."""
+    if protocol not in _SHAPES:
+        import spnego
+
+        saved = os.environ.get("NTLM_USER_FILE")
+        os.environ["NTLM_USER_FILE"] = ntlm_user_file()
+        try:
+            req = spnego.ContextReq.default | spnego.ContextReq.dce_style
+            c = spnego.client(f"{NTLM_DOMAIN}\\{NTLM_USER}", NTLM_PASSWORD, hostname="dc.test", service="host", protocol=protocol, context_req=req)
+            s_ = spnego.server(protocol=protocol, context_req=req)
+            legs, stoks, tok = [], [], None
+            for _ in range(8):
+                out = c.step(tok) if legs else c.step()
+                legs.append((bool(out), bool(c.complete)))
+                if not out:
+                    break
+                tok = s_.step(out)
+                stoks.append(bool(tok))
+                if c.complete:
+                    break
+            _SHAPES[protocol] = (legs, stoks, int(c.query_message_sizes().header))
+        finally:
+            if saved is None:
+                os.environ.pop("NTLM_USER_FILE", None)
+            else:
+                os.environ["NTLM_USER_FILE"] = saved
+    return _SHAPES[protocol]
 
 
 def toy_tokens(nlegs: int, final_empty: bool) -> t.Tuple[t.List[bytes], t.List[t.Optional[bytes]]]:
@@ -699,7 +738,8 @@ class IsdConn(Conn):
         if cfg.mode == "ntlm":
             import spnego
 
-            return spnego.server(protocol="ntlm", context_req=spnego.ContextReq.default | spnego.ContextReq.dce_style)
+            proto = cfg.protocol if cfg.protocol in ("ntlm", "negotiate") else "ntlm"
+            return spnego.server(protocol=proto, context_req=spnego.ContextReq.default | spnego.ContextReq.dce_style)
         ctoks, stoks = toy_tokens(cfg.nlegs, cfg.final_empty)
         return ToyServerCtx(cfg.sig_len, ctoks, stoks)
 
@@ -986,13 +1026,19 @@ def hook(dc: DC, segments: t.Optional[t.List[int]] = None):
         reader = asyncio.StreamReader()
         return reader, PipeWriter(conn, reader, segments)
 
+    nested = [0]
+
     def client(username=None, password=None, hostname="unspecified", service="host", channel_bindings=None,
                context_req=None, protocol="negotiate", options=0, **kw):
+        if nested[0]:
+            # the SPNEGO proxy builds its sub-mechanism contexts through spnego.client as well: not the library's call
+            return real_client(username, password, hostname=hostname, service=service, channel_bindings=channel_bindings,
+                               context_req=context_req, protocol=protocol, options=options, **kw)
         dc.client_args.append({"username": username, "password": password, "hostname": hostname, "service": service,
                                "protocol": protocol, "context_req": int(context_req) if context_req is not None else None})
         if cfg.mode == "ntlm":
             ctx = RecordingCtx(real_client(username, password, hostname=hostname, service=service, context_req=context_req,
-                                           protocol=protocol, options=options, **kw))
+                                           protocol=protocol, options=options, **kw), nested)
         else:
             ctoks, stoks = toy_tokens(cfg.nlegs, cfg.final_empty)
             ctx = ToyClientCtx(cfg.sig_len, ctoks, stoks)
